@@ -335,6 +335,8 @@ def run(chk, repo, tier):
               and p.outcome[1] == 'RINGReaderError']
     chk.ob('R16.6', bool(raises), RQR, rdr, key='balance-raise',
            what='an unbalanced rule raises RINGReaderError')
+    # ---- R16.10 exception arity ---------------------------------------------------
+    c09.exception_arity(chk, repo, 'R16.10', [RQR, RQ])
     # ---- R16.7/8 ------------------------------------------------------------------
     c09.check_shapes(chk, repo, g, 'R16.8', only_class='ReactionQueryReader')
     # ---- R16.9 reviewed --------------------------------------------------------------
